@@ -340,6 +340,10 @@ func parenthesize(f *ast.File) {
 			n.X = operand(n.X)
 		case *ast.CallExpr:
 			n.Fun = operand(n.Fun)
+			// A conversion to a function type: "(func())(x)".
+			if ft, ok := n.Fun.(*ast.FuncType); ok {
+				n.Fun = paren(ft)
+			}
 		}
 		return true
 	})
